@@ -170,6 +170,24 @@ func applyModel(model, add, del []E) (nm, added, removed []E) {
 	return
 }
 
+// diffOK: the change-set a bulk write reports for (add, del) on model. An element that was absent and is named as both
+// added and deleted ends up absent: its membership did not change, and whether the report mentions the transient
+// insertion (in both lists) or not (in neither) is open; everything else is exactly the membership change.
+func diffOK(model, add, del, gotAdded, gotRemoved []E) bool {
+	_, wa, wd := applyModel(model, add, del)
+	contradicting := func(e E) bool { return has(add, e) && has(del, e) && !has(model, e) }
+	strip := func(l []E) []E { return keep(l, func(e E) bool { return !contradicting(e) }) }
+	if !sameSet(strip(gotAdded), strip(wa)) || !sameSet(strip(gotRemoved), strip(wd)) {
+		return false
+	}
+	for _, e := range add {
+		if contradicting(e) && has(gotAdded, e) != has(gotRemoved, e) {
+			return false
+		}
+	}
+	return true
+}
+
 // replaceOrders: the two iteration orders the statement permits after Replace(l) on prev (the given
 // order; or retained elements at their old positions followed by the new ones).
 func replaceOrders(prev, l []E) (a, b []E) {
@@ -321,10 +339,10 @@ func seqSet(s *simrt.Sim) {
 			ga, gd := applied.AddedElements().ToSlice(), applied.DeletedElements().ToSlice()
 			nm, wa, wd := applyModel(model, add, del)
 			s.Logf("Apply(+%v -%v) -> +%v -%v", add, del, ga, gd)
-			if !sameSet(ga, wa) || !sameSet(gd, wd) {
+			if !diffOK(model, add, del, ga, gd) {
 				bad("Apply-diff", "Apply(+%v -%v) on %v returned +%v -%v, want +%v -%v", add, del, model, ga, gd, wa, wd)
 			}
-			if applied.IsEmpty() != (len(wa)+len(wd) == 0) {
+			if applied.IsEmpty() != (len(ga)+len(gd) == 0) {
 				bad("Apply-diff", "applied mutations IsEmpty()=%v for +%v -%v", applied.IsEmpty(), ga, gd)
 			}
 			model = nm
@@ -349,7 +367,7 @@ func seqSet(s *simrt.Sim) {
 				bad("Compute-view", "Compute's factory saw %v, model %v", snap, model)
 			}
 			nm, wa, wd := applyModel(model, add, del)
-			if !sameSet(ga, wa) || !sameSet(gd, wd) {
+			if !diffOK(model, add, del, ga, gd) {
 				bad("Compute-diff", "Compute(+%v -%v) on %v returned +%v -%v, want +%v -%v", add, del, model, ga, gd, wa, wd)
 			}
 			model = nm
@@ -1206,10 +1224,11 @@ func (h *setHist) run(c int, set ds.Set[E], o cop, u int) {
 			h.line(c, call, ret, "%v saw %v asked +%v -%v -> +%v -%v", o, snap, add, del, ga, gd)
 		}
 		for _, e := range add {
-			h.opB(c, call, ret, bIn{bAdd, e}, bOut{ok: has(ga, e), known: true})
+			// (an element named as both added and deleted: what the report says about it is not judged, see diffOK)
+			h.opB(c, call, ret, bIn{bAdd, e}, bOut{ok: has(ga, e), known: !has(del, e)})
 		}
 		for _, e := range del {
-			h.opB(c, call, ret, bIn{bDel, e}, bOut{ok: has(gd, e), known: true})
+			h.opB(c, call, ret, bIn{bDel, e}, bOut{ok: has(gd, e), known: !has(add, e)})
 		}
 		if !subsetOf(ga, add) || !subsetOf(gd, del) {
 			s.Fail("diff", copNames[o.kind]+"-result", "%v asked +%v -%v, returned +%v -%v", o, add, del, ga, gd)
@@ -1329,8 +1348,8 @@ func modelA(init []E, acceptPreviousContents bool) porcupine.Model {
 				if i.kind == aCompute && !eq(o.snap, l) {
 					return nil
 				}
-				nl, added, removed := applyModel(l, i.add, i.del)
-				if !eq(added, o.added) || !eq(removed, o.removed) {
+				nl, _, _ := applyModel(l, i.add, i.del)
+				if !diffOK(l, i.add, i.del, o.added, o.removed) {
 					return nil
 				}
 				return one(nl)
